@@ -77,6 +77,9 @@ type oracleRun struct {
 	// writes were rolled back, the oracle's process memory was not). Everything that follows for such a feeder is
 	// a consequence of that one defect and is reported under its own signature.
 	tainted map[uint64]string
+	// noTaintClasses: do not generate the two input classes that trigger the recorded memory-mutation findings
+	noTaintClasses   bool
+	firstTaintHeight int64
 }
 
 func (o *oracleRun) site(fid uint64, s string) string {
@@ -156,6 +159,7 @@ func runOracle(j Job) *Result {
 				o.vals = append(o.vals, op.Keys[0])
 			}
 		}
+		o.noTaintClasses = i%3 == 0 // a third of the histories stay free of the two recorded memory-mutation triggers
 		w.KeepSnaps = false
 		nBlocks := 50 + r.Intn(40)
 		if j.Tier == "thorough" {
@@ -366,6 +370,10 @@ func (o *oracleRun) run(nBlocks int) {
 					pc.class = "two-messages"
 					m2 := o.mkMsg(k, f, based, nonce+1, price, fmt.Sprint(2000+based), f.dec, 0)
 					pc.msgs = []*oracletypes.MsgCreatePrice{msg, m2}
+				}
+				if o.noTaintClasses && (pc.class == "two-messages" || pc.class == "non-numeric-price") {
+					pc.class, pc.msgs = "honest", nil
+					msg.Prices[0].Prices[0].Price = price
 				}
 				if pc.msgs == nil {
 					pc.msgs = []*oracletypes.MsgCreatePrice{msg}
@@ -697,6 +705,9 @@ func (o *oracleRun) judgeTx(mode string, pc priceCase, st *ops.Step, pre, post *
 		for _, m := range pc.msgs {
 			if o.feeders[m.FeederID] != nil && o.tainted[m.FeederID] == "" {
 				o.tainted[m.FeederID] = pc.class
+				if o.firstTaintHeight == 0 {
+					o.firstTaintHeight = st.Height
+				}
 			}
 		}
 	}
